@@ -118,6 +118,26 @@ theorem mixed_session_exact {P : Bytes → Bool} {cfg : Cfg} {dv : LineDev} (hf 
       (∀ x ∈ w'.avail, isHws x = true) :=
   mixed_session_in_step hf hfirst hout stripPrompt ops hg w hw
 
+/-- **the result is the device's text, trimmed** (strip_prompt off): what every command of a session
+    returns (`expected`) is the response `rbody ++ NL :: prompt` with every line right-trimmed and the
+    surrounding empty lines dropped — `normalizeText` is the property's own wording, written at the
+    level of lines, while `_process_output` works on bytes (lstrip / rstrip / join). -/
+theorem expected_is_normalized {P : Bytes → Bool} {cfg : Cfg} {dv : LineDev} (hf : Fits P cfg dv)
+    (input : Bytes) :
+    expected cfg dv false input = normalizeText (dv.rbody input ++ NL :: dv.prompt) :=
+  processOutput_lines cfg hf.ret (dv.rbody input) dv.prompt hf.prompt_ne hf.prompt_nl
+
+/-- the same with strip_prompt on, given that `re.sub` removes exactly the prompt line -/
+theorem expected_is_normalized_strip {P : Bytes → Bool} {cfg : Cfg} {dv : LineDev} (hf : Fits P cfg dv)
+    (input : Bytes)
+    (hsub : cfg.prompt.sub (joinNL ((splitNL (dv.rbody input ++ NL :: dv.prompt)).map rstrip)) =
+      joinNL ((splitNL (dv.rbody input ++ [NL])).map rstrip)) :
+    expected cfg dv true input = normalizeText (dv.rbody input ++ [NL]) :=
+  processOutput_lines_strip cfg hf.ret (dv.rbody input) dv.prompt hf.prompt_ne hf.prompt_nl hsub
+
+/-- `normalizeText` on a concrete response: trailing blanks of lines and surrounding empty lines go -/
+example : normalizeText [10, 10, 97, 32, 32, 10, 10, 98, 9, 10, 32, 10] = [97, 10, 10, 98] := by decide
+
 /-! ### non-vacuity: a concrete pattern, device and commands inside the quantifier -/
 
 def exPrompt : Bytes := [114, 49, 35]                     -- "r1#"
